@@ -9,6 +9,7 @@ import (
 	"sort"
 	"strconv"
 	"strings"
+	"time"
 
 	"perkeep.org/pkg/sorted"
 	"perkeep.org/pkg/sorted/buffer"
@@ -914,5 +915,66 @@ func probes(r *hk.Run) {
 	r.Probe("F-C10-2", got != "ok,ok,notfound", "open buffer 100 sqlite; flush; get 61 -> "+got)
 	if got != "ok,ok,notfound" {
 		r.Fail("buffer:flush-empty-leaks-backing-batch", "Flush of an empty buffer over sqlite", "ok,ok,notfound", got, w2)
+	}
+	// F-C10-4: sqlkv with a transaction that cannot be begun (closed or failing database): CommitBatch
+	// called Rollback on a nil *sql.Tx – a nil dereference that takes the whole process down (seen when a
+	// sync worker committed into an index whose database was closing) – and a read transaction whose
+	// BEGIN failed never released the store's gate slot, so the next operation blocked for good.
+	{
+		dir, err := os.MkdirTemp("", "pkh-c10-probe-")
+		got := "setup-failed"
+		if err == nil {
+			kv, err := openEngine("sqlite", filepath.Join(dir, "probe.sqlite"))
+			if err == nil {
+				kv.Set("a", "1")
+				kv.Close()
+				step := func(f func() string) string {
+					ch := make(chan string, 1)
+					go func() { ch <- hk.Guard(f) }()
+					select {
+					case out := <-ch:
+						return out
+					case <-time.After(hangAfter):
+						return "hang"
+					}
+				}
+				o1 := step(func() string {
+					b := kv.BeginBatch()
+					b.Set("b", "2")
+					if err := kv.CommitBatch(b); err != nil {
+						return "err"
+					}
+					return "ok"
+				})
+				o2 := "skipped"
+				if tx, ok := kv.(sorted.TransactionalReader); ok && !strings.HasPrefix(o1, "panic") {
+					o2 = step(func() string {
+						rt := tx.BeginReadTx()
+						if err := rt.Close(); err != nil {
+							return "err"
+						}
+						return "ok"
+					})
+				}
+				o3 := "skipped"
+				if o2 != "hang" && !strings.HasPrefix(o1, "panic") {
+					o3 = step(func() string {
+						if _, err := kv.Get("a"); err != nil {
+							return "err"
+						}
+						return "ok"
+					})
+				}
+				got = o1 + "," + o2 + "," + o3
+			}
+			os.RemoveAll(dir)
+		}
+		r.ImplOnly("probe")
+		want := "err,err,err"
+		r.Probe("F-C10-4", got != want, "sqlite store closed, then batch / read tx / get -> "+got)
+		if got != want {
+			r.Fail("sqlkv:failed-begin-panics-or-leaks-gate", "sqlite KeyValue whose BEGIN fails: BeginBatch+CommitBatch, BeginReadTx+Close, Get", want, got,
+				[]string{"open sqlite", "set 61 31", "close (database closed: every BEGIN fails)", "batch s 62 32", "readtx", "get 61"})
+		}
 	}
 }
